@@ -15,7 +15,8 @@ from mc.refmodel import geom
 
 STEP = 0.25
 MAX_DIFFS = (0.0, 0.25, 0.5, 1.0)
-OFFSETS = (0.0, 0.25, -0.25, 1.0, -1.0)
+# (0.3: an offset that is not a binary fraction - (t + 0.3) - 0.3 is not t)
+OFFSETS = (0.0, 0.25, -0.25, 1.0, -1.0, 0.3)
 EPOCHS = (0.0, 1.5e9)
 # 1: +0.125 on odd slots of B; 2: +2^-8 on odd slots of B (closer than any
 # default threshold: only max_diff itself may decide whether they pair)
@@ -350,7 +351,8 @@ def large_cases(thorough):
     disjoint ranges, epoch offsets); all stamps are multiples of 2^-10"""
     q = 2.0**-10
     cases = []
-    sizes = [(50, 60), (200, 201), (333, 100)] + (
+    # (2200 x 2100 > 2^22 pairs of stamps: blocked / chunked searches)
+    sizes = [(50, 60), (200, 201), (333, 100), (2200, 2100)] + (
         [(1000, 1200), (5000, 4000)] if thorough else [])
     for n1, n2 in sizes:
         for epoch in (0.0, 1.5e9):
@@ -367,6 +369,15 @@ def large_cases(thorough):
                 cases.append({"t1": t1, "t2": t2, "slots1": list(range(n1)),
                               "slots2": list(range(n2)), "offset": offset,
                               "max_diff": max_diff, "mode": "quat+read"})
+    # the trajectory with fewer poses is the denser one (a short, fast
+    # recording against a long, slow one): every counterpart is contested by
+    # 3-4 consecutive poses, at whatever index a blocked search may cut
+    for phase in (0, 1, 2):
+        t1 = [1.0 * k for k in range(2200)]
+        t2 = [100.0 + 0.28125 * (k + phase) for k in range(2100)]
+        cases.append({"t1": t1, "t2": t2, "slots1": list(range(2200)),
+                      "slots2": list(range(2100)), "offset": 0.0,
+                      "max_diff": 0.5, "mode": "quat"})
     return cases
 
 
